@@ -25,19 +25,30 @@
 (***************************************************************************)
 EXTENDS ExprLang
 
-CONSTANTS MaxLeaves, MaxOps, MaxStack,
-          VarSet, NumSet, FuncSet,      \* names offered
-          Toks, GToks,                  \* index tokens offered for variables / generated axes
-          IntExps,                      \* integer exponent literals
-          Wraps,                        \* subset of {"scope", "jump", "mean"}
-          Muts,                         \* enabled rule-breaking constructors
-          Cors,                         \* enabled token corruptions
-          Styles,                       \* rendering styles besides 0
-          EmitMin,                      \* emit only trees with at least this many productions
-          Bug                           \* "" or the name of a seeded defect of the algorithm model (spec mutants)
+CONSTANTS Fams,       \* sequence of vocabularies (families); one is chosen in the initial state
+          EmitMin,    \* emit only trees with at least this many productions
+          Bug         \* "" or the name of a seeded defect of the algorithm model (spec mutants)
 
-VARIABLES stk, fin, jd
-vars == <<stk, fin, jd>>
+VARIABLES stk, fin, jd, fam
+vars == <<stk, fin, jd, fam>>
+
+\* a vocabulary: bounds, names offered, index tokens offered for variables / generated axes, integer
+\* exponent literals, brackets, enabled rule-breaking constructors, token corruptions, extra styles
+Fam(ml, mo, ms, v, n, f, t, g, e, w, m, c, s) ==
+  [ML |-> ml, MO |-> mo, MS |-> ms, V |-> v, N |-> n, F |-> f, T |-> t, G |-> g, E |-> e, W |-> w, M |-> m, C |-> c, S |-> s]
+MaxLeaves == Fams[fam].ML
+MaxOps == Fams[fam].MO
+MaxStack == Fams[fam].MS
+VarSet == Fams[fam].V
+NumSet == Fams[fam].N
+FuncSet == Fams[fam].F
+Toks == Fams[fam].T
+GToks == Fams[fam].G
+IntExps == Fams[fam].E
+Wraps == Fams[fam].W
+Muts == Fams[fam].M
+Cors == Fams[fam].C
+Styles == Fams[fam].S
 
 \* ================================================================== part 1: the algorithm
 XAt(a, idx) == a.v[Flat(idx, a.sh) + 1]
@@ -174,7 +185,7 @@ ProjArr(a) == [sh |-> a.sh, v |-> [k \in 1..Len(a.v) |-> <<a.v[k][1][1], a.v[k][
 NoArr == [sh |-> <<>>, v |-> <<>>]
 RECURSIVE Ops(_)
 Ops(e) == {e.op} \cup (IF e.op \in {"call", "var", "num"} THEN {e.nm} ELSE {}) \cup UNION {Ops(e.kids[p]) : p \in 1..Len(e.kids)}
-NoCase == [t |-> <<>>, ok |-> "none", why |-> "", guess |-> <<>>, fr |-> <<>>, arr |-> NoArr, rev |-> NoArr, ops |-> {}, no |-> 0, st |-> 0]
+NoCase == [t |-> <<>>, ok |-> "none", why |-> "", guess |-> <<>>, fr |-> <<>>, arr |-> NoArr, rev |-> NoArr, ops |-> {}, no |-> 0, st |-> 0, fam |-> 0]
 NoJd == [c |-> FALSE, verdict |-> TRUE, free |-> TRUE, meaning |-> TRUE, case |-> NoCase]
 Judge(ent) ==
   LET e == ent.e
@@ -202,7 +213,7 @@ Judge(ent) ==
                 fr |-> IF valid THEN fr ELSE <<>>,
                 arr |-> IF usable THEN ProjArr(sorted) ELSE NoArr,
                 rev |-> IF usable THEN ProjArr(rev) ELSE NoArr,
-                ops |-> Ops(e), no |-> ent.no, st |-> 0]]
+                ops |-> Ops(e), no |-> ent.no, st |-> 0, fam |-> 0]]
 \* ================================================================== part 2: the derivation machine
 \* stack entry: tree, syntactic rank (1 item, 2 power, 3 term, 4 fraction, 5 sum), leaves, productions
 Ent(e, r, nl, no) == [e |-> e, r |-> r, nl |-> nl, no |-> no]
@@ -216,64 +227,61 @@ NO == SumField([p \in 1..L |-> stk[p].no], L)
 Push(x) == stk' = Append(stk, x)
 Rep1(x) == stk' = Append(SubSeq(stk, 1, L - 1), x)
 Rep2(x) == stk' = Append(SubSeq(stk, 1, L - 2), x)
-\* every production leaves the finishing record alone and judges the new stack when it is one complete tree
-Built == /\ fin' = fin
-         /\ jd' = IF Len(stk') = 1 /\ stk'[1].no >= EmitMin THEN Judge(stk'[1]) ELSE NoJd
 Open == ~fin.done
 CanLeaf == Open /\ NL < MaxLeaves /\ L < MaxStack
 CanOp == Open /\ NO < MaxOps
 
-ANum == /\ CanLeaf /\ \E t \in NumSet : Push(Ent(NumNd(t), 1, 1, 0)) /\ Built
-AVar == /\ CanLeaf
+PNum == /\ CanLeaf /\ \E t \in NumSet : Push(Ent(NumNd(t), 1, 1, 0)) /\ UNCHANGED fin
+PVar == /\ CanLeaf
         /\ \E nm \in VarSet : \E ix \in [1..Len(VarTab[nm].sh) -> Toks] : Push(Ent(VarNd(nm, ix), 1, 1, 0))
-        /\ Built
+        /\ UNCHANGED fin
 \* rule breakers at the leaves: unknown name, one index too many / too few, a symbol that is no index
-ABadVar == /\ CanLeaf
+PBadVar == /\ CanLeaf
            /\ \/ /\ "unknown" \in Muts /\ \E ix \in {<<>>, <<"i">>} : Push(Ent(VarNd("q", ix), 1, 1, 0))
               \/ /\ "index-count" \in Muts
                  /\ \E nm \in VarSet : \E d \in {-1, 1} : Len(VarTab[nm].sh) + d >= 0
                        /\ \E ix \in [1..(Len(VarTab[nm].sh) + d) -> (Toks \cap {"i", "j"})] : Push(Ent(VarNd(nm, ix), 1, 1, 0))
               \/ /\ "index-symbol" \in Muts
                  /\ \E nm \in VarSet : Len(VarTab[nm].sh) = 1 /\ \E t \in {"I", "$"} : Push(Ent(VarNd(nm, <<t>>), 1, 1, 0))
-           /\ Built
-AWrap == /\ CanOp /\ L >= 1
+           /\ UNCHANGED fin
+PWrap == /\ CanOp /\ L >= 1
          /\ \E w \in Wraps : Rep1(Ent(Nd(w, "", <<>>, <<Top.e>>, <<>>), 1, Top.nl, Top.no + 1))
-         /\ Built
-ACall == /\ CanOp /\ L >= 1
+         /\ UNCHANGED fin
+PCall == /\ CanOp /\ L >= 1
          /\ \E f \in FuncSet : \E ix \in [1..Len(FuncTab[f].gen) -> GToks] :
                 Rep1(Ent(Nd("call", f, ix, <<Top.e>>, <<>>), 1, Top.nl, Top.no + 1))
-         /\ Built
-ABadCall == /\ CanOp /\ L >= 1
+         /\ UNCHANGED fin
+PBadCall == /\ CanOp /\ L >= 1
             /\ \/ /\ "unknown" \in Muts /\ Rep1(Ent(Nd("call", "nofunc", <<>>, <<Top.e>>, <<>>), 1, Top.nl, Top.no + 1))
                \/ /\ "index-count" \in Muts
                   /\ \E f \in FuncSet : \E d \in {-1, 1} : Len(FuncTab[f].gen) + d >= 0
                         /\ \E ix \in [1..(Len(FuncTab[f].gen) + d) -> (GToks \cap {"i", "j"})] :
                               Rep1(Ent(Nd("call", f, ix, <<Top.e>>, <<>>), 1, Top.nl, Top.no + 1))
-            /\ Built
-APowInt == /\ CanOp /\ L >= 1 /\ (Top.r = 1 \/ (Top.r = 2 /\ "repeated-power" \in Muts))
+            /\ UNCHANGED fin
+PPowInt == /\ CanOp /\ L >= 1 /\ (Top.r = 1 \/ (Top.r = 2 /\ "repeated-power" \in Muts))
            /\ \E x \in IntExps : Rep1(Ent(Nd("pow", "int", <<>>, <<Top.e, NumNd(x)>>, <<>>), 2, Top.nl, Top.no + 1))
-           /\ Built
-APowScoped == /\ CanOp /\ L >= 2 /\ Sec.r = 1
+           /\ UNCHANGED fin
+PPowScoped == /\ CanOp /\ L >= 2 /\ Sec.r = 1
               /\ Rep2(Ent(Nd("pow", "scoped", <<>>, <<Sec.e, Top.e>>, <<>>), 2, Sec.nl + Top.nl, Sec.no + Top.no + 1))
-              /\ Built
+              /\ UNCHANGED fin
 \* juxtaposition: a term is extended on the right
-ATerm == /\ CanOp /\ L >= 2 /\ Sec.r <= 3 /\ Top.r <= 2
+PTerm == /\ CanOp /\ L >= 2 /\ Sec.r <= 3 /\ Top.r <= 2
          /\ (IsNumItem(Top.e) => "number-position" \in Muts)
          /\ Rep2(Ent(Nd("term", "", <<>>, IF Sec.r = 3 THEN Append(Sec.e.kids, Top.e) ELSE <<Sec.e, Top.e>>, <<>>), 3,
                      Sec.nl + Top.nl, Sec.no + Top.no + (IF Sec.r = 3 THEN 0 ELSE 1)))
-         /\ Built
-AFrac == /\ CanOp /\ L >= 2 /\ Top.r <= 3 /\ (Sec.r <= 3 \/ (Sec.r = 4 /\ "repeated-fraction" \in Muts))
+         /\ UNCHANGED fin
+PFrac == /\ CanOp /\ L >= 2 /\ Top.r <= 3 /\ (Sec.r <= 3 \/ (Sec.r = 4 /\ "repeated-fraction" \in Muts))
          /\ Rep2(Ent(Nd("frac", "", <<>>, <<Sec.e, Top.e>>, <<>>), 4, Sec.nl + Top.nl, Sec.no + Top.no + 1))
-         /\ Built
-ANeg == /\ CanOp /\ L >= 1 /\ Top.r <= 4
+         /\ UNCHANGED fin
+PNeg == /\ CanOp /\ L >= 1 /\ Top.r <= 4
         /\ Rep1(Ent(Nd("sum", "", <<>>, <<Top.e>>, <<"-">>), 5, Top.nl, Top.no + 1))
-        /\ Built
-ASum == /\ CanOp /\ L >= 2 /\ Top.r <= 4
+        /\ UNCHANGED fin
+PSum == /\ CanOp /\ L >= 2 /\ Top.r <= 4
         /\ \E s \in {"+", "-"} \cup (IF "misplaced-minus" \in Muts THEN {"+-"} ELSE {}) :
               Rep2(Ent(Nd("sum", "", <<>>, IF Sec.r = 5 THEN Append(Sec.e.kids, Top.e) ELSE <<Sec.e, Top.e>>,
                           IF Sec.r = 5 THEN Append(Sec.e.sg, s) ELSE <<"+", s>>), 5,
                        Sec.nl + Top.nl, Sec.no + Top.no + (IF Sec.r = 5 THEN 0 ELSE 1)))
-        /\ Built
+        /\ UNCHANGED fin
 
 \* ---- finishing: a rendering style or one token-level corruption of the canonical string
 Brackets == {"(", ")", "[", "]", "{", "}"}
@@ -316,15 +324,35 @@ Refinish(j, e, f) ==
   ELSE [j EXCEPT !.case.t = Corrupt(f.ck, Render(e, 0), f.cp), !.case.ok = "bad", !.case.why = f.ck,
                  !.case.fr = <<>>, !.case.arr = NoArr, !.case.rev = NoArr]
 
-AFinish == /\ Open /\ L = 1
+PFinish == /\ Open /\ L = 1
            /\ \/ \E st \in Styles : fin' = [done |-> TRUE, st |-> st, ck |-> "", cp |-> 0]
               \/ \E k \in Cors : \E p \in CorPositions(k, CanonToks) : fin' = [done |-> TRUE, st |-> 0, ck |-> k, cp |-> p]
            /\ UNCHANGED stk
-           /\ jd.c /\ jd' = Refinish(jd, Top.e, fin')
 
-Init == stk = <<>> /\ fin = [done |-> FALSE, st |-> 0, ck |-> "", cp |-> 0] /\ jd = NoJd
-Next == ANum \/ AVar \/ ABadVar \/ AWrap \/ ACall \/ ABadCall \/ APowInt \/ APowScoped \/ ATerm \/ AFrac \/ ANeg \/ ASum \/ AFinish
+Init == stk = <<>> /\ fin = [done |-> FALSE, st |-> 0, ck |-> "", cp |-> 0] /\ jd = NoJd /\ fam \in 1..Len(Fams)
+\* the judged machine: jd is a function of the new stack and finishing record (one evaluation per step)
+Production == PNum \/ PVar \/ PBadVar \/ PWrap \/ PCall \/ PBadCall \/ PPowInt \/ PPowScoped \/ PTerm \/ PFrac \/ PNeg \/ PSum
+Next == /\ \/ Production /\ jd' = IF Len(stk') = 1 /\ stk'[1].no >= EmitMin THEN Judge(stk'[1]) ELSE NoJd
+           \/ PFinish /\ jd.c /\ jd' = Refinish(jd, Top.e, fin')
+        /\ UNCHANGED fam
 Spec == Init /\ [][Next]_vars
+\* the bare machine (no judgement), one named action per production: used for the per-action coverage
+\* (vacuity guard) of a configuration; it has the same reachable stacks as Spec
+ANum == PNum /\ UNCHANGED <<jd, fam>>
+AVar == PVar /\ UNCHANGED <<jd, fam>>
+ABadVar == PBadVar /\ UNCHANGED <<jd, fam>>
+AWrap == PWrap /\ UNCHANGED <<jd, fam>>
+ACall == PCall /\ UNCHANGED <<jd, fam>>
+ABadCall == PBadCall /\ UNCHANGED <<jd, fam>>
+APowInt == PPowInt /\ UNCHANGED <<jd, fam>>
+APowScoped == PPowScoped /\ UNCHANGED <<jd, fam>>
+ATerm == PTerm /\ UNCHANGED <<jd, fam>>
+AFrac == PFrac /\ UNCHANGED <<jd, fam>>
+ANeg == PNeg /\ UNCHANGED <<jd, fam>>
+ASum == PSum /\ UNCHANGED <<jd, fam>>
+AFinish == PFinish /\ UNCHANGED <<jd, fam>>
+BareNext == ANum \/ AVar \/ ABadVar \/ AWrap \/ ACall \/ ABadCall \/ APowInt \/ APowScoped \/ ATerm \/ AFrac \/ ANeg \/ ASum \/ AFinish
+BareSpec == Init /\ [][BareNext]_vars
 
 \* ================================================================== the property
 VerdictAgree == jd.verdict       \* the algorithm accepts iff the documented rules hold
@@ -338,7 +366,7 @@ RenderBalanced == (jd.c /\ fin.ck = "") => Depth(jd.case.t, 1, 0) = 0
 Unbalanced == (jd.c /\ fin.ck = "del-bracket") => Depth(jd.case.t, 1, 0) # 0
 
 \* ================================================================== emission
-EmitComplete == jd.c => Emit(jd.case)
+EmitComplete == jd.c => Emit([jd.case EXCEPT !.fam = fam])
 \* the namespace itself, once
-EmitTables == (L = 0) => Emit([vars |-> VarTab, funcs |-> FuncTab, nums |-> [t \in DOMAIN NumTab |-> NumTab[t]]])
+EmitTables == (L = 0 /\ fam = 1) => Emit([vars |-> VarTab, funcs |-> FuncTab, nums |-> [t \in DOMAIN NumTab |-> NumTab[t]]])
 =============================================================================
